@@ -1,6 +1,7 @@
 CONSTANTS
   KPool <- NoPool
   FPool <- NoPool
+  BadPool <- NoPool
   MaxRes = 1
   Depth = 1
 SPECIFICATION TSpec
